@@ -1,8 +1,8 @@
 SPECIFICATION GenSpec
 CONSTANTS
   Procs = {"g1", "g2"}
-  FastTypes = {"A", "B"}
-  SlowTypes = {"H"}
+  FastTypes = {"A"}
+  SlowTypes = {"H", "J"}
   QType = ""
   Sides = {"dec"}
   Variant = "norace"
